@@ -191,6 +191,9 @@ func (w *World) addContractFile(cf *ContractFile) {
 				// extra assumed clauses about a verified function are kept as assumed postconditions
 				keep.AssumedEnsures = append(keep.AssumedEnsures, other.Ensures...)
 			}
+			if v, ok := other.Opts["functional"]; ok && other.Kind == "trusted" {
+				keep.Opts["functional"] = v // an assumption about call sites, not about the body
+			}
 			if !keep.HasFrame && other.HasFrame {
 				// the frame comes from a trusted declaration: callers rely on it, the body is not
 				// checked against it (reported as an assumption)
